@@ -454,7 +454,7 @@ def lockstep(prog, r, conv_parent=False):
     strict = not (prog.features & {"with:N"})
     for i, (mine, d) in enumerate(zip(m.menus, r.decisions)):
         theirs = d[0]
-        if mine is None or "flush:nested" in prog.features:
+        if mine is None or prog.features & {"flush:nested", "flush:hooknested"}:
             continue
         if prog.features & {"sync", "iv"}:
             # synchronous re-entry (nested wait or out-of-band item.value()): outside C04's premise
